@@ -279,10 +279,26 @@ def subsets(names):
 # --------------------------------------------------------------------------
 # observation helpers (every library call is wrapped)
 # --------------------------------------------------------------------------
+_BATCH = [0]
+
+
 def observe(ctx, what, circuit, steps=None):
     """ eval() as an [output, input] matrix, or None (violation recorded). """
+    _BATCH[0] += 1
     try:
-        tensor = circuit.eval()
+        if _BATCH[0] % 4 == 3:
+            # evaluated in a batch, next to a mixed and to another pure circuit:
+            # the pure circuit still evaluates to its own matrix
+            from discopy.quantum import Measure, Ket, Discard, H
+            others = [(Measure(),), (Ket(0) >> Discard(), H), (H,)][_BATCH[0] // 4 % 3]
+            results = circuit.eval(*others)
+            ctx.count("evaluated_in_a_batch")
+            if len(results) != 1 + len(others):
+                raise ValueError("batch of {} circuits gave {} results".format(
+                    1 + len(others), len(results)))
+            tensor = results[0]
+        else:
+            tensor = circuit.eval()
         n_in, n_out = len(circuit.dom), len(circuit.cod)
         dims_ok = tuple(tensor.dom) == n_in * (2, )\
             and tuple(tensor.cod) == n_out * (2, )
@@ -680,6 +696,7 @@ def random_circuit(rng, ctx):
 
 
 def run_case(rng, ctx):
+    _BATCH[0] = ctx.index          # replayable: the batch pattern follows the case
     kind = ctx.index % 16
     if kind == 0:
         gate_sweep(rng, ctx)
